@@ -6,6 +6,7 @@ import (
 	"os"
 	"path/filepath"
 	"strings"
+	"unicode"
 
 	"gopkg.in/yaml.v3"
 
@@ -87,6 +88,9 @@ func genC03Index(r *Rng, tier string, idx int) []string {
 		}
 	}
 	ops := c03RiLines(cmds, nil)
+	if idx == 0 {
+		ops = append(ops, "foldscan")
+	}
 	for i := range cmds {
 		ops = append(ops, cmdLine(&cmds[i]))
 	}
@@ -326,6 +330,16 @@ func execC03(ops []string, mon *Mon) []string {
 		case "cmd":
 			pending = append(pending, parseCmdLine(f))
 			out = append(out, "ok")
+		case "foldscan":
+			// every non-ASCII code point whose unicode.ToLower is ASCII, over the whole code space
+			line := "fold"
+			for r := rune(0x80); r <= unicode.MaxRune; r++ {
+				if unicode.ToLower(r) < 0x80 {
+					line += " " + Itoa(int(r))
+				}
+			}
+			mon.Tag("foldscan")
+			out = append(out, line)
 		case "snapshot":
 			db := &database.Database{Commands: c03Clone(pending)}
 			db.BuildUniversalIndex()
